@@ -412,7 +412,7 @@ FORMS = {"src": ["el"], "fc": ["el", "seq", "tuple_id"] + _TUPLE_FORMS, "fr": ["
 SQ_VARIANTS = ["map", "mapEnd", "even", "sumBlock", "dup", "running", "lam"]
 
 
-def _rand_spec(rng, n, kinds=("src", "fc", "fr", "sq", "sum")):
+def _rand_spec(rng, n, kinds=("src", "fc", "fr", "sq", "sum"), pp=True):
     k = rng.choice(kinds)
     if k == "src":
         sp = {"k": "src", "n": rng.choice([0, 1, 2, 3])}
@@ -426,9 +426,13 @@ def _rand_spec(rng, n, kinds=("src", "fc", "fr", "sq", "sum")):
     else:
         sp = {"k": "sum"}
     if k == "sq" and sp["v"] == "lam":
-        sp["form"] = rng.choice(["el"] + _TUPLE_FORMS)
+        forms = ["el"] + _TUPLE_FORMS
     else:
-        sp["form"] = rng.choice(FORMS[k])
+        forms = FORMS[k]
+    if not pp:
+        # the pre/post-processing tuple forms are exercised through Split.run only
+        forms = [f for f in forms if f not in ("tuple_pre", "tuple_post", "tuple_pp")]
+    sp["form"] = rng.choice(forms)
     return sp
 
 
@@ -442,7 +446,7 @@ def _rand_nest(rng, n):
     stops = rng.random() < 0.4
     inner = []
     for _ in range(rng.randint(1, 3)):
-        sp = _rand_spec(rng, n, kinds)
+        sp = _rand_spec(rng, n, kinds, pp=False)
         if not stops and "stop" in sp:
             sp["stop"] = None
         inner.append(sp)
@@ -482,7 +486,7 @@ def _rand_methods(rng, maxbr, maxn):
         kinds = ("src",)
     else:
         kinds = ("src", "fc", "fr", "sq", "sum")
-    return {"op": "methods", "brs": [_rand_spec(rng, n, kinds) for _ in range(l)], "blocks": blocks}
+    return {"op": "methods", "brs": [_rand_spec(rng, n, kinds, pp=False) for _ in range(l)], "blocks": blocks}
 
 
 def _rand_zip(rng, maxbr, maxn):
@@ -495,7 +499,7 @@ def _rand_zip(rng, maxbr, maxn):
         kinds = ("fr",)
     else:
         kinds = ("src", "fc", "fr", "sq", "sum")
-    return {"op": "zip", "brs": [_rand_spec(rng, len(flow), kinds) for _ in range(l)], "flow": flow}
+    return {"op": "zip", "brs": [_rand_spec(rng, len(flow), kinds, pp=False) for _ in range(l)], "flow": flow}
 
 
 CAPS_LETTERS = "fcqrkib"
